@@ -204,10 +204,19 @@ class OrderAnalysis:
                             el = self.set_elem(node.args[0], env, ci)
                             if el is not None:
                                 out.append(self._site(mname, qn, node.args[0], el, 'join', False, '', node))
+                        if isinstance(f, ast.Attribute) and name in ('extend', 'extendleft', 'writelines') and node.args:
+                            # a sequence extended by a set keeps the set's iteration order
+                            el = self.set_elem(node.args[0], env, ci)
+                            if el is not None and self.set_elem(f.value, env, ci) is None:
+                                out.append(self._site(mname, qn, node.args[0], el, f'call:{name}', False, '', node))
                         if isinstance(f, ast.Attribute) and name == 'pop' and not node.args:
                             el = self.set_elem(f.value, env, ci)
                             if el is not None:
                                 out.append(self._site(mname, qn, f.value, el, 'pop', False, '', node))
+                    elif isinstance(node, ast.AugAssign) and isinstance(node.op, ast.Add):
+                        el = self.set_elem(node.value, env, ci)
+                        if el is not None and self.set_elem(node.target, env, ci) is None:
+                            out.append(self._site(mname, qn, node.value, el, 'augmented-add', False, '', node))
                     elif isinstance(node, ast.Starred) and isinstance(node.ctx, ast.Load):
                         el = self.set_elem(node.value, env, ci)
                         if el is not None:
